@@ -17,6 +17,10 @@ E2_ARRAY = {"name": "e2-array", "engine": "e2", "harness": ["array.cc"], "repo_s
 
 E2_SUBJECT = {"name": "e2-subject", "engine": "e2", "harness": ["subject.cc"], "repo_src": []}
 
+E2_OBSERVABLE = {"name": "e2-observable", "engine": "e2", "harness": ["observable.cc"], "repo_src": []}
+
+E2_ROUTER = {"name": "e2-router", "engine": "e2", "harness": ["router_seq.cc"], "repo_src": _ROUTER_SRC}
+
 MC = "model_checking"
 
 CHECKS = {
@@ -28,6 +32,9 @@ CHECKS = {
     "C14": {"level": MC, "runs": [{"binary": E2_ARRAY, "flavour": "asanub"}]},
     "C05": {"level": MC, "runs": [{"binary": E2_SUBJECT, "flavour": "asanub"}]},
     "C10": {"level": MC, "runs": [{"binary": E2_SUBJECT, "flavour": "asanub"}]},
+    "C16": {"level": MC, "runs": [{"binary": E2_OBSERVABLE, "flavour": "asanub"}]},
+    "C06": {"level": MC, "runs": [{"binary": E2_ROUTER, "flavour": "asan"}]},
+    "C13": {"level": MC, "runs": [{"binary": E2_ROUTER, "flavour": "asan"}]},
     "C07": {"level": MC, "runs": [{"binary": E1_POOL, "flavour": "plain"}, {"binary": E1_POOL, "flavour": "asan", "args": ["--max-bound", "1"]}]},
     "C08": {"level": MC, "runs": [{"binary": E1_POOL, "flavour": "plain"}]},
     "C15": {"level": MC, "runs": [{"binary": E1_RACE, "flavour": "tsan"}]},
